@@ -1,6 +1,6 @@
 (* KernelLib.v — support for the kernel translator (tools/gen/kernels.py): the hand models of the few helpers that BitsCore/Mutators
    inline into their callers, and the tactic that proves  `translated source = hand model`  by case analysis. *)
-From BS Require Import Prims BitsCore Mutators.
+From BS Require Import Prims BitsCore Mutators Search Stream.
 From Coq Require Import ZifyBool.
 Open Scope Z_scope.
 
@@ -16,6 +16,9 @@ Proof. reflexivity. Qed.
 Lemma bs_irshift_unfold b n : bs_irshift b n =
   if n <? 0 then Err ValueError else if zlen b =? 0 then Err ValueError else if n =? 0 then Ok b else irshift_ b (Z.min n (zlen b)).
 Proof. reflexivity. Qed.
+
+(* the stream machine's results as (content, pos) * result, the shape the translated stream methods have *)
+Definition unst {A} (x : stream * res A) : (bits * Z) * res A := ((sbits (fst x), spos (fst x)), snd x).
 
 (* calls that cannot fail under their guard (the translated source binds their result before it is needed) *)
 Lemma seq_slice_nostep_ok {A} (d : A) (l : list A) a b : exists r, seq_slice d l (mkslice a b None) = Ok r.
@@ -48,7 +51,9 @@ Tactic Notation "bridge" constr(k) :=
   intros; unfold k;
   cbv beta delta [bind validate_slice absolute_slice insert_ overwrite_ delete_ truncateleft truncateright ilshift_ irshift_
                   ba_insert ba_overwrite ror_msb0 rol_msb0 ba_ror ba_rol ba_reverse bs_ilshift bs_irshift ba_imul slice_ reversebytes
-                  indices offset_slice_indices_lsb0];
+                  indices offset_slice_indices_lsb0
+                  unst set_pos set_bytepos get_bytepos bytealign st_clear st_append st_prepend st_insert st_overwrite st_delitem_slice st_delitem_int
+                  on_content keep_pos reset_if_len_changed ba_append ba_prepend ba_delitem_int ba_delitem_slice sbits spos fst snd];
   bridge_core.
 
 (* boolean comparisons of the kernels' result types, for the small-domain search that runs when a bridge no longer proves *)
@@ -59,3 +64,8 @@ Definition rslice_eqb := res_eqb slice_eqb.
 Definition zoz_eqb (a b : Z * option Z * Z) : bool :=
   let '(a1, a2, a3) := a in let '(b1, b2, b3) := b in (a1 =? b1) && oz_eqb a2 b2 && (a3 =? b3).
 Definition rzoz_eqb := res_eqb zoz_eqb.
+
+Definition st_unit_eqb (a b : (bits * Z) * res unit) : bool :=
+  bits_eqb (fst (fst a)) (fst (fst b)) && (snd (fst a) =? snd (fst b)) && res_eqb unit_eqb (snd a) (snd b).
+Definition st_z_eqb (a b : (bits * Z) * res Z) : bool :=
+  bits_eqb (fst (fst a)) (fst (fst b)) && (snd (fst a) =? snd (fst b)) && res_eqb Z.eqb (snd a) (snd b).
